@@ -142,3 +142,35 @@ def detect_trace(events):
             x.update(n=e["sync"] + e["async"])
         out.append(x)
     return out
+
+
+def diff_traces(events):
+    """Per file section of a run: normalised TraceDiff input {target_file: [events]}."""
+    out = {}
+    filt = {}
+    for e in events:
+        if e["ev"] == "parse_file":
+            filt[e["path"]] = e["filter"] == "all"
+    sections = {}
+    for e in events:
+        if e["ev"] in ("dl", "hunk_end", "changes"):
+            sections.setdefault(e["file"], []).append(e)
+    for tf, evs in sections.items():
+        path = tf[2:] if tf.startswith("b/") else tf
+        tr = []
+        for e in evs:
+            if e["ev"] == "dl":
+                tr.append({"ev": "dl", "k": e["k"], "src": e["src"] or 0, "tgt": e["tgt"] or 0, "q": e["q"], "n": e["n"]})
+            elif e["ev"] == "hunk_end":
+                tr.append({"ev": "hunk_end", "k": "", "src": 0, "tgt": 0, "q": e["q"], "n": e["n"]})
+            else:
+                tr.append({"ev": "changes", "changes": [{"line": c["line"], "whole": c["whole"], "ranges": c["ranges"]}
+                                                          for c in e["changes"]]})
+        if not any(t["ev"] == "changes" for t in tr):
+            continue
+        for e in events:
+            if e["ev"] == "block" and e["path"] == path:
+                tr.append({"ev": "block", "tag": e["tag"], "content": e["content"], "content_mod": e["content_mod"],
+                           "tag_mod": e["tag_mod"], "kept": e["kept"], "filter_all": filt.get(path, False)})
+        out[tf] = tr
+    return out
